@@ -29,7 +29,14 @@ Record callees := {
   c_trailer : bytes -> trres;          (* canonical names announced by a Trailer value *)
 }.
 
-Inductive err := EHttp (code : N) | EEscape | EMiss | EFuel.
+Inductive err := EHttp (code : N) | EPeek411 (* 411 raised by check_message_without_body_containing_data *) | EEscape | EMiss | EFuel.
+
+(* The implementation is [real].  Two of its decisions look at whatever happens to be in the buffer
+   (line-end selection falls back to a bare LF; the 411 check peeks at the octets after the message) and the
+   incremental consumption of complete header lines is an optimisation; each can be switched off to obtain
+   the reference machines the fragmentation theorems are stated against. *)
+Record config := { allow_lf : bool; peek411 : bool; eager_hdr : bool }.
+Definition real : config := {| allow_lf := true; peek411 := true; eager_hdr := true |}.
 
 Record msg := { m_line : bytes; m_hdrs : hdrs; m_body : bytes }.
 
@@ -61,12 +68,13 @@ Definition K_TRAILER := X "547261696c6572".
 Definition CHUNKED := X "6368756e6b6564".
 
 Section WithCallees.
+Variable cfg : config.
 Variable C : callees.
 Variable k : kind.
 
 (* ---- start line: CRLF if anywhere in the buffer, else LF if anywhere, else wait ---- *)
 Definition parse_startline (b : bytes) : pres (bytes * lineend * slinfo) :=
-  let le := if contains CRLF b then Some LE_CRLF else if contains [LF] b then Some LE_LF else None in
+  let le := if contains CRLF b then Some LE_CRLF else if allow_lf cfg && contains [LF] b then Some LE_LF else None in
   match le with
   | None => Need ([], LE_CRLF, {| p11 := false; nobody := false |}) b
   | Some le =>
@@ -93,6 +101,7 @@ Definition parse_headers (le : lineend) (h : hdrs) (b : bytes) : pres hdrs :=
        | Some (block, rest) =>
            match parse_block h block with Some h' => Done h' rest | None => Fail (EHttp 400) end
        | None =>
+           if negb (eager_hdr cfg) then Need h b else
            (* _parse_single_headers: consume complete lines once the next line is known not to continue them *)
            let parts := if suffixb l b
                         then match rcut l (firstn (length b - length l) b) with
@@ -253,10 +262,10 @@ Definition on_headers_complete (i : inflight) : inflight + err :=
        | HErr c => inr (EHttp c) | HEscape => inr EEscape | HMiss => inr EMiss
        end.
 
-Definition on_body_complete (v411 : bool) (i : inflight) (b : bytes) : msg + err :=
+Definition on_body_complete (i : inflight) (b : bytes) : msg + err :=
   let h := i_hdrs i in
-  if (match k with Server => nonempty_b b && negb (hmem K_CL h) && negb (i_chunked i) | Client => false end)
-  then inr (EHttp 411)
+  if (match k with Server => peek411 cfg && nonempty_b b && negb (hmem K_CL h) && negb (i_chunked i) | Client => false end)
+  then inr EPeek411
   else
     let dec := match i_ce i with
                | Some ce => match c_decode C ce (i_body i) with
@@ -283,7 +292,7 @@ Definition after_headers (i : inflight) (b : bytes) : turn :=
   | Fail e => TErr e
   | Need i' b' => TBlocked {| buf := b'; cur := Some i' |}
   | Done i' b' =>
-      match on_body_complete true i' b' with
+      match on_body_complete i' b' with
       | inr e => TErr e
       | inl m => TMsg {| buf := b'; cur := None |} m
       end
@@ -318,16 +327,19 @@ Definition turn_of (s : pstate) : turn :=
   end.
 
 (* the while loop of _parse: stops when the buffer is empty, a phase blocks, or an error is raised *)
+(* after an error the connection is abandoned: the state component is then the fixed value [init]
+   (it is never used again); the messages completed before the error in the same call are still
+   reported here, the caller (parse() = tuple(generator)) drops them *)
 Fixpoint loop (fuel : nat) (s : pstate) (acc : list msg) : pstate * list msg * option err :=
   match buf s with
   | [] => (s, rev acc, None)
   | _ :: _ =>
       match fuel with
-      | O => (s, rev acc, Some EFuel)
+      | O => (init, rev acc, Some EFuel)
       | S f =>
           match turn_of s with
           | TBlocked s' => (s', rev acc, None)
-          | TErr e => (s, rev acc, Some e)
+          | TErr e => (init, rev acc, Some e)
           | TMsg s' m => loop f s' (m :: acc)
           end
       end
